@@ -142,6 +142,36 @@ def extract() -> dict[str, int]:
     if len(lp) != 1 or not (isinstance(lp[0].value, ast.Constant) and type(lp[0].value.value) is int):
         raise Unsupported("reprocess_nodes: `checker.last_pass = <int>` not found exactly once")
     out["FINE_GRAINED_LAST_PASS"] = lp[0].value.value
+    # --- checker.accept_loop: `iter = 1`, single `iter += 1`, `if iter == <cap>: raise RuntimeError`, and the exact break condition
+    import re
+    al = _func(ck, "accept_loop")
+    inits = [n for n in ast.walk(al) if isinstance(n, ast.Assign) and ast.unparse(n.targets[0]) == "iter"]
+    if len(inits) != 1 or ast.unparse(inits[0].value) != "1":
+        raise Unsupported("accept_loop: `iter = 1` must occur exactly once")
+    incs = [n for n in ast.walk(al) if isinstance(n, ast.AugAssign) and ast.unparse(n.target) == "iter"]
+    if len(incs) != 1 or not isinstance(incs[0].op, ast.Add) or ast.unparse(incs[0].value) != "1":
+        raise Unsupported("accept_loop: `iter += 1` must occur exactly once")
+    caps = [n for n in ast.walk(al) if isinstance(n, ast.If) and (c := _cmp(n.test)) and c[0] == "iter" and c[1] == "Eq"]
+    if len(caps) != 1 or not _ends_with(caps[0].body, ast.Raise) or not caps[0].test.comparators[0].__class__ is ast.Constant:
+        raise Unsupported("accept_loop: `if iter == <cap>: raise ...` not found exactly once")
+    out["ACCEPT_LOOP_CAP"] = int(caps[0].test.comparators[0].value)  # type: ignore[attr-defined]
+    brk = [n for n in ast.walk(al) if isinstance(n, ast.If) and _ends_with(n.body, ast.Break)]
+    if len(brk) != 1:
+        raise Unsupported("accept_loop: exactly one `if ...: break` expected")
+    m = re.fullmatch(r"partials_new == partials_old and \(not self\.binder\.last_pop_changed or iter > (\d+)\) and "
+                     r"\(widened_new == widened_old or iter > (\d+)\)", ast.unparse(brk[0].test))
+    if not m:
+        raise Unsupported("accept_loop: break condition changed shape: " + ast.unparse(brk[0].test))
+    out["ACCEPT_LOOP_FRAME_ITERS"], out["ACCEPT_LOOP_WIDEN_ITERS"] = int(m.group(1)), int(m.group(2))
+    whiles = [n for n in ast.walk(al) if isinstance(n, ast.While)]
+    if len(whiles) != 1 or ast.unparse(whiles[0].test) != "True":
+        raise Unsupported("accept_loop: a single `while True:` expected")
+    order = [type(x).__name__ for x in whiles[0].body[-5:]]
+    if order != ["If", "Assign", "Assign", "AugAssign", "If"]:
+        raise Unsupported(f"accept_loop: tail of the loop body changed: {order}")
+    for k in ("ACCEPT_LOOP_CAP", "ACCEPT_LOOP_FRAME_ITERS", "ACCEPT_LOOP_WIDEN_ITERS"):
+        if not 0 <= out[k] <= 5000:
+            raise Unsupported(f"{k} out of range")
     return out
 
 
@@ -154,7 +184,11 @@ def render(vals: dict[str, int]) -> str:
              "Definition FINE_GRAINED_LAST_PASS : nat := %d." % vals["FINE_GRAINED_LAST_PASS"],
              "Definition MAX_ITER : nat := %d." % vals["MAX_ITER"],
              "(* number of `self.defer_node` call sites in checker.py, all under `if self.pass_num < self.last_pass` *)",
-             "Definition DEFER_SITES_GUARDED : nat := %d." % vals["DEFER_SITES"]]
+             "Definition DEFER_SITES_GUARDED : nat := %d." % vals["DEFER_SITES"],
+             "(* checker.accept_loop: `if iter == CAP: raise`; break condition `... iter > FRAME_ITERS ... iter > WIDEN_ITERS` *)",
+             "Definition ACCEPT_LOOP_CAP : nat := %d." % vals["ACCEPT_LOOP_CAP"],
+             "Definition ACCEPT_LOOP_FRAME_ITERS : nat := %d." % vals["ACCEPT_LOOP_FRAME_ITERS"],
+             "Definition ACCEPT_LOOP_WIDEN_ITERS : nat := %d." % vals["ACCEPT_LOOP_WIDEN_ITERS"]]
     return "\n".join(lines) + "\n"
 
 
